@@ -8,7 +8,8 @@ import struct as _struct
 
 from .absint import AbsRaise, Inexact, exc_is_subclass
 from .values import (K, T, Obj, ListV, TupleV, SetV, DictV, FuncRef, ClassRef,
-                     ExtRef, ModRef, AbsFunc, RegexV, same, show)
+                     ExtRef, ModRef, AbsFunc, RegexV, NTupleV, NTClass, same,
+                     show)
 
 
 class Method:
@@ -280,6 +281,10 @@ def _identity(a, b, interp=None):
     if isinstance(a, ExtRef) and isinstance(b, K) or \
             isinstance(b, ExtRef) and isinstance(a, K):
         return False
+    # type(x) of an unmodelled object is a class: never a constant
+    if isinstance(a, T) and a.op == 'type' and isinstance(b, K) or \
+            isinstance(b, T) and b.op == 'type' and isinstance(a, K):
+        return False
     if interp is not None:
         da = isinstance(a, T) and (a in interp.distinct or a.op == 'tb')
         db = isinstance(b, T) and (b in interp.distinct or b.op == 'tb')
@@ -364,6 +369,11 @@ def _compare(interp, sym, a, b):
             a, b = b, a
         return T('cmp', '==', interp.termify(a), interp.termify(b))
     if sym == 'in':
+        holder = b.cls if isinstance(b, (Obj, NTupleV)) else None
+        if isinstance(holder, ClassRef):
+            m, _o = holder.lookup('__contains__')
+            if isinstance(m, FuncRef):
+                return K(bool(interp.truth(interp.call(m.bind(b), [a]))))
         if isinstance(b, K) and isinstance(a, K):
             try:
                 return K(a.v in b.v)
@@ -687,6 +697,16 @@ def type_names(interp, t):
 def isinstance_(interp, v, t):
     types = type_names(interp, t)
     tag = None
+    if isinstance(v, NTupleV):
+        for ty in types:
+            if ty is v.cls or (isinstance(ty, ExtRef) and ty.name in (
+                    'tuple', 'object')):
+                return K(True)
+            if isinstance(v.cls, ClassRef) and (
+                    (isinstance(ty, ClassRef) and v.cls.is_subclass(ty)) or
+                    ty is v.cls.nt_base()):
+                return K(True)
+        return K(False)
     if isinstance(v, K):
         pyv = v.v
         res = False
@@ -826,6 +846,16 @@ def fold_ext_attr(mod, name):
         v = getattr(string, name, None)
         if isinstance(v, str):
             return K(v)
+    if mod == 'pyparsing' and name in ('printables', 'alphas', 'nums',
+                                       'alphanums', 'hexnums', 'alphas8bit',
+                                       'punc8bit'):
+        try:
+            import pyparsing
+        except ImportError:
+            return None
+        v = getattr(pyparsing, name, None)
+        if isinstance(v, str):
+            return K(v)
     if mod in _FOLD_MODULES:
         import importlib
         try:
@@ -912,6 +942,20 @@ def call_external(interp, f, args, kwargs):
     raise Inexact('call of %s' % type(f).__name__)
 
 
+def _all_const(args):
+    """Constants or containers built only from constants."""
+    def const(v):
+        if isinstance(v, K):
+            return True
+        if isinstance(v, (ListV, TupleV, SetV)):
+            return all(const(x) for x in v.items)
+        if isinstance(v, DictV):
+            return not v.unknown and all(const(x) for x in v.keys) and \
+                all(const(x) for x in v.vals)
+        return False
+    return all(const(a) for a in args)
+
+
 def _all_k(args, kwargs=None):
     return all(isinstance(a, K) for a in args) and \
         all(isinstance(v, K) for v in (kwargs or {}).values())
@@ -928,6 +972,18 @@ def call_method(interp, base, name, args, kwargs):
             try:
                 r = meth(*[a.v for a in args],
                          **{k: v.v for k, v in kwargs.items()})
+            except Exception as e:
+                raise py_exc(interp, e)
+            return from_python(r)
+        if isinstance(base.v, (str, bytes)) and name in (
+                'translate', 'join', 'startswith', 'endswith', 'format',
+                'strip', 'lstrip', 'rstrip', 'replace', 'split') and \
+                not kwargs and _all_const(args):
+            # containers of constants as arguments (translate tables,
+            # tuples of prefixes): fold with the host implementation
+            from .world import to_python
+            try:
+                r = getattr(base.v, name)(*[to_python(a) for a in args])
             except Exception as e:
                 raise py_exc(interp, e)
             return from_python(r)
@@ -1076,7 +1132,44 @@ def from_python(r):
     raise Inexact('host value %r' % type(r).__name__)
 
 
+def b_deque(interp, args, kwargs):
+    """collections.deque([iterable]) without maxlen: a list that also grows
+    and shrinks at the left end."""
+    maxlen = args[1] if len(args) > 1 else kwargs.get('maxlen')
+    if maxlen is not None and not (isinstance(maxlen, K) and
+                                   maxlen.v is None):
+        raise Inexact('deque with maxlen')
+    if args and isinstance(args[0], T):
+        return NotImplemented
+    d = ListV(list(interp.iterate(args[0])) if args else [])
+    d.is_deque = True
+    return d
+
+
 def list_method(interp, base, name, args, kwargs):
+    if getattr(base, 'is_deque', False):
+        if name == 'appendleft' and len(args) == 1:
+            base.items.insert(0, args[0])
+            return K(None)
+        if name == 'popleft' and not args:
+            if not base.items:
+                raise AbsRaise(T('exc', 'IndexError', 'pop from an empty '
+                                 'deque'))
+            return base.items.pop(0)
+        if name == 'extendleft' and len(args) == 1:
+            for x in interp.iterate(args[0]):
+                base.items.insert(0, x)
+            return K(None)
+        if name == 'rotate':
+            n = args[0].v if args and isinstance(args[0], K) else None
+            if n is None and args:
+                raise Inexact('deque.rotate by a symbolic amount')
+            n = 1 if n is None else n
+            if base.items:
+                k = n % len(base.items)
+                base.items[:] = base.items[-k:] + base.items[:-k] if k \
+                    else base.items
+            return K(None)
     if name == 'append' and len(args) == 1:
         base.items.append(args[0])
         interp.effect('append', interp.termify_ref(base),
@@ -1342,9 +1435,158 @@ def b_reversed(interp, args, kwargs):
     return ListV(list(reversed(interp.iterate(args[0]))))
 
 
+class EndlessV:
+    """itertools.repeat(x) / count(n) / cycle(xs): an iterator without end;
+    only meaningful next to a finite one (zip, islice)."""
+
+    def __init__(self, kind, payload):
+        self.kind = kind
+        self.payload = payload
+
+    def take(self, interp, n):
+        if self.kind == 'repeat':
+            return [self.payload] * n
+        if self.kind == 'count':
+            start, step = self.payload
+            return [binop(interp, ast.Add(), start,
+                          binop(interp, ast.Mult(), step, K(i)))
+                    if i else start for i in range(n)]
+        items = self.payload
+        if not items:
+            return []
+        return [items[i % len(items)] for i in range(n)]
+
+
 def b_zip(interp, args, kwargs):
-    seqs = [interp.iterate(a) for a in args]
+    if kwargs and set(kwargs) != {'strict'}:
+        return NotImplemented
+    finite = [interp.iterate(a) for a in args
+              if not isinstance(a, EndlessV)]
+    if args and not finite:
+        raise Inexact('zip over endless iterators only')
+    n = min([len(x) for x in finite] or [0])
+    seqs = [a.take(interp, n) if isinstance(a, EndlessV)
+            else interp.iterate(a) for a in args]
     return ListV([TupleV(list(t)) for t in zip(*seqs)])
+
+
+def b_it_repeat(interp, args, kwargs):
+    times = args[1] if len(args) > 1 else kwargs.get('times')
+    if times is None:
+        return EndlessV('repeat', args[0])
+    if not (isinstance(times, K) and isinstance(times.v, int)):
+        return NotImplemented
+    return ListV([args[0]] * max(0, times.v))
+
+
+def b_it_count(interp, args, kwargs):
+    start = args[0] if args else kwargs.get('start', K(0))
+    step = args[1] if len(args) > 1 else kwargs.get('step', K(1))
+    return EndlessV('count', (start, step))
+
+
+def b_it_cycle(interp, args, kwargs):
+    return EndlessV('cycle', list(interp.iterate(args[0])))
+
+
+def b_it_chain(interp, args, kwargs):
+    out = []
+    for a in args:
+        if isinstance(a, T):
+            return NotImplemented
+        out.extend(interp.iterate(a))
+    return ListV(out)
+
+
+def b_it_chain_from(interp, args, kwargs):
+    if len(args) != 1 or isinstance(args[0], T):
+        return NotImplemented
+    out = []
+    for a in interp.iterate(args[0]):
+        if isinstance(a, T):
+            return NotImplemented
+        out.extend(interp.iterate(a))
+    return ListV(out)
+
+
+def b_it_islice(interp, args, kwargs):
+    if len(args) < 2 or not all(isinstance(x, K) for x in args[1:]):
+        return NotImplemented
+    bounds = [x.v for x in args[1:]]
+    sl = slice(*bounds)
+    if isinstance(args[0], EndlessV):
+        if sl.stop is None:
+            raise Inexact('islice without an end over an endless iterator')
+        items = args[0].take(interp, sl.stop)
+    elif isinstance(args[0], T):
+        return NotImplemented
+    else:
+        items = interp.iterate(args[0])
+    return ListV(items[sl])
+
+
+def b_it_starmap(interp, args, kwargs):
+    if len(args) != 2 or isinstance(args[1], T):
+        return NotImplemented
+    return ListV([interp.call(args[0], list(interp.iterate(x)))
+                  for x in interp.iterate(args[1])])
+
+
+def _filtering(keep_true):
+    def f(interp, args, kwargs):
+        if len(args) != 2 or isinstance(args[1], T):
+            return NotImplemented
+        pred = args[0]
+        out = []
+        for x in interp.iterate(args[1]):
+            r = x if isinstance(pred, K) and pred.v is None else \
+                interp.call(pred, [x])
+            if bool(interp.truth(r)) == keep_true:
+                out.append(x)
+        return ListV(out)
+    return f
+
+
+def _while(take):
+    def f(interp, args, kwargs):
+        if len(args) != 2 or isinstance(args[1], T):
+            return NotImplemented
+        items = interp.iterate(args[1])
+        i = 0
+        while i < len(items) and interp.truth(interp.call(args[0],
+                                                          [items[i]])):
+            i += 1
+        return ListV(items[:i] if take else items[i:])
+    return f
+
+
+def b_it_accumulate(interp, args, kwargs):
+    if not args or isinstance(args[0], T):
+        return NotImplemented
+    func = args[1] if len(args) > 1 else kwargs.get('func')
+    items = list(interp.iterate(args[0]))
+    if 'initial' in kwargs and not (isinstance(kwargs['initial'], K) and
+                                    kwargs['initial'].v is None):
+        items = [kwargs['initial']] + items
+    out = []
+    for x in items:
+        if not out:
+            out.append(x)
+        elif func is None or (isinstance(func, K) and func.v is None):
+            out.append(binop(interp, ast.Add(), out[-1], x))
+        else:
+            out.append(interp.call(func, [out[-1], x]))
+    return ListV(out)
+
+
+def b_it_zip_longest(interp, args, kwargs):
+    if any(isinstance(a, (T, EndlessV)) for a in args):
+        return NotImplemented
+    fill = kwargs.get('fillvalue', K(None))
+    seqs = [interp.iterate(a) for a in args]
+    n = max([len(x) for x in seqs] or [0])
+    return ListV([TupleV([s_[i] if i < len(s_) else fill for s_ in seqs])
+                  for i in range(n)])
 
 
 def b_dict(interp, args, kwargs):
@@ -1488,9 +1730,40 @@ def b_hasattr(interp, args, kwargs):
     return T('call', 'hasattr', interp.termify(obj), name)
 
 
+def b_namedtuple(interp, args, kwargs):
+    """collections.namedtuple(typename, field_names, defaults=...)."""
+    if len(args) != 2 or set(kwargs) - {'defaults', 'module'}:
+        return NotImplemented
+    name, fields = args
+    if not isinstance(name, K):
+        return NotImplemented
+    if isinstance(fields, K) and isinstance(fields.v, str):
+        names = fields.v.replace(',', ' ').split()
+    else:
+        items = interp.iterate(fields)
+        if not all(isinstance(x, K) and isinstance(x.v, str) for x in items):
+            return NotImplemented
+        names = [x.v for x in items]
+    defaults = kwargs.get('defaults')
+    dvals = [] if defaults is None or (
+        isinstance(defaults, K) and defaults.v is None) else \
+        list(interp.iterate(defaults))
+    return NTClass(name.v, names, dvals)
+
+
+def b_setattr(interp, args, kwargs):
+    if len(args) != 3 or not isinstance(args[1], K) or \
+            not isinstance(args[1].v, str):
+        raise Inexact('setattr with a computed name')
+    interp.set_attr(args[0], args[1].v, args[2])
+    return K(None)
+
+
 def b_type(interp, args, kwargs):
     if len(args) == 1:
         v = args[0]
+        if isinstance(v, NTupleV):
+            return v.cls
         if isinstance(v, Obj) and v.cls is not None:
             return v.cls
         if isinstance(v, K):
@@ -1658,6 +1931,23 @@ def b_pure(name):
     return f
 
 
+def b_pure_ext(dotted):
+    """A pure stdlib function folded on constant arguments (symbolic
+    arguments keep the default handling of the call)."""
+    def f(interp, args, kwargs):
+        if _all_k(args, kwargs):
+            import importlib
+            mod, _, fn = dotted.rpartition('.')
+            try:
+                return from_python(getattr(importlib.import_module(mod), fn)(
+                    *[a.v for a in args],
+                    **{k: v.v for k, v in kwargs.items()}))
+            except Exception as e:
+                raise py_exc(interp, e)
+        return NotImplemented
+    return f
+
+
 def b_math_ceil(interp, args, kwargs):
     import math
     if _all_k(args):
@@ -1681,6 +1971,33 @@ def b_map(interp, args, kwargs):
         return T('call', 'map', interp.termify(args[0]), args[1])
     return ListV([interp.call(args[0], [x])
                   for x in interp.iterate(args[1])])
+
+
+def b_partial(interp, args, kwargs):
+    """functools.partial(f, *a, **kw): a callable that prepends / merges."""
+    if not args:
+        return NotImplemented
+    f, pre, prekw = args[0], list(args[1:]), dict(kwargs)
+
+    def run(i2, a, kw):
+        merged = dict(prekw)
+        merged.update(kw)
+        return i2.call(f, pre + list(a), merged)
+    r = AbsFunc('partial(%s)' % show(interp.termify(f)), run)
+    return r
+
+
+def b_wraps(interp, args, kwargs):
+    """functools.wraps(f)(g) is update_wrapper(g, f) and returns g."""
+    if len(args) != 1 or kwargs:
+        return NotImplemented
+    f = args[0]
+
+    def run(i2, a, kw):
+        i2.opaque_call('functools.update_wrapper',
+                       ExtRef('functools.update_wrapper'), [a[0], f], {})
+        return a[0]
+    return AbsFunc('wraps', run)
 
 
 def b_reduce(interp, args, kwargs):
@@ -1725,6 +2042,17 @@ def b_parse_qsl(interp, args, kwargs):
     return NotImplemented
 
 
+def b_parse_qs(interp, args, kwargs):
+    if _all_k(args, kwargs):
+        from urllib import parse
+        try:
+            return from_python(parse.parse_qs(
+                *[a.v for a in args], **{k: v.v for k, v in kwargs.items()}))
+        except Exception as e:
+            raise py_exc(interp, e)
+    return NotImplemented
+
+
 def b_groupby(interp, args, kwargs):
     if not isinstance(args[0], (ListV, TupleV)):
         return NotImplemented
@@ -1752,24 +2080,47 @@ def b_property(interp, args, kwargs):
 
 
 def b_attrgetter(interp, args, kwargs):
-    if len(args) != 1 or not (isinstance(args[0], K) and
-                              isinstance(args[0].v, str)):
+    if not args or not all(isinstance(x, K) and isinstance(x.v, str)
+                           for x in args):
         return NotImplemented
-    path = args[0].v.split('.')
+    paths = [x.v.split('.') for x in args]
 
-    def get(interp2, a, kw):
-        v = a[0]
+    def one(interp2, v, path):
         for part in path:
             v = interp2.get_attr(v, part)
         return v
-    return AbsFunc('attrgetter(%s)' % args[0].v, get)
+
+    def get(interp2, a, kw):
+        if len(paths) == 1:
+            return one(interp2, a[0], paths[0])
+        return TupleV([one(interp2, a[0], p) for p in paths])
+    return AbsFunc('attrgetter(%s)' % ','.join(x.v for x in args), get)
 
 
 def b_itemgetter(interp, args, kwargs):
-    if len(args) != 1:
+    if not args:
         return NotImplemented
-    key = args[0]
-    return AbsFunc('itemgetter', lambda i2, a, kw: subscript(i2, a[0], key))
+    keys = list(args)
+
+    def get(i2, a, kw):
+        if len(keys) == 1:
+            return subscript(i2, a[0], keys[0])
+        return TupleV([subscript(i2, a[0], k) for k in keys])
+    return AbsFunc('itemgetter', get)
+
+
+def b_methodcaller(interp, args, kwargs):
+    if not args or not (isinstance(args[0], K) and
+                        isinstance(args[0].v, str)):
+        return NotImplemented
+    name, pre, prekw = args[0].v, list(args[1:]), dict(kwargs)
+
+    def run(i2, a, kw):
+        if len(a) != 1 or kw:
+            raise AbsRaise(T('exc', 'TypeError',
+                             'methodcaller expected 1 argument'))
+        return i2.call(i2.get_attr(a[0], name), pre, prekw)
+    return AbsFunc('methodcaller(%s)' % name, run)
 
 
 def b_frozenset(interp, args, kwargs):
@@ -1807,6 +2158,82 @@ def b_closing(interp, args, kwargs):
         i.call(i.get_attr(thing, 'close'), [])
         return K(None)
     o.fields['__exit__'] = AbsFunc('__exit__', leave)
+    return o
+
+
+def b_exitstack(interp, args, kwargs):
+    """contextlib.ExitStack(): callbacks and entered managers are left in
+    reverse order; a callback that raises replaces the pending exception;
+    a manager that returns true suppresses it."""
+    if args or kwargs:
+        return NotImplemented
+    o = Obj(None, {}, label='ExitStack')
+    todo = []       # ('call', f, args, kw) | ('ctx', manager)
+
+    def callback(i, a, k):
+        if not a:
+            raise AbsRaise(T('exc', 'TypeError', 'callback needs a callable'))
+        todo.append(('call', a[0], list(a[1:]), dict(k)))
+        return a[0]
+
+    def enter_context(i, a, k):
+        r = i.ctx_enter(a[0])
+        todo.append(('ctx', a[0]))
+        return r
+
+    def push(i, a, k):
+        if isinstance(a[0], Obj) and i.get_attr(a[0], '__exit__',
+                                               missing_ok=True) is not None:
+            todo.append(('ctx', a[0]))
+        else:
+            todo.append(('exitfn', a[0]))
+        return a[0]
+
+    def unwind(i, exc):
+        """-> the exception still pending after every callback ran."""
+        while todo:
+            item = todo.pop()
+            try:
+                if item[0] == 'call':
+                    i.call(item[1], item[2], item[3])
+                elif item[0] == 'ctx':
+                    if i.ctx_exit(item[1], exc):
+                        exc = None
+                else:
+                    cls = i.exc_class_of(exc) if exc is not None else None
+                    r = i.call(item[1], [K(None)] * 3 if exc is None else [
+                        cls if cls is not None else T('type', exc), exc,
+                        T('tb', i.termify(exc))])
+                    if exc is not None and i.truth(r):
+                        exc = None
+            except AbsRaise as r2:
+                exc = r2.exc
+        return exc
+
+    def exit_(i, a, k):
+        exc0 = None if isinstance(a[1], K) and a[1].v is None else a[1]
+        left = unwind(i, exc0)
+        if left is None:
+            return K(exc0 is not None)
+        if left is exc0:
+            return K(False)
+        raise AbsRaise(left)
+
+    def close(i, a, k):
+        left = unwind(i, None)
+        if left is not None:
+            raise AbsRaise(left)
+        return K(None)
+
+    def pop_all(i, a, k):
+        raise Inexact('ExitStack.pop_all')
+    o.fields['__enter__'] = AbsFunc('__enter__', lambda i, a, k: o)
+    o.fields['__exit__'] = AbsFunc('__exit__', exit_)
+    o.fields['callback'] = AbsFunc('callback', callback)
+    o.fields['enter_context'] = AbsFunc('enter_context', enter_context)
+    o.fields['push'] = AbsFunc('push', push)
+    o.fields['close'] = AbsFunc('close', close)
+    o.fields['pop_all'] = AbsFunc('pop_all', pop_all)
     return o
 
 
@@ -1873,9 +2300,11 @@ BUILTINS = {
     'zip': b_zip, 'dict': b_dict, 'list': b_list, 'tuple': b_tuple,
     'set': b_set, 'sorted': b_sorted, 'all': b_all, 'any': b_any,
     'frozenset': b_frozenset, 'property': b_property,
+    'operator.methodcaller': b_methodcaller,
+    'collections.deque': b_deque,
     'operator.attrgetter': b_attrgetter, 'operator.itemgetter': b_itemgetter,
     'dict.fromkeys': b_dict_fromkeys,
-    'getattr': b_getattr, 'hasattr': b_hasattr, 'type': b_type, 'id': b_id,
+    'getattr': b_getattr, 'hasattr': b_hasattr, 'setattr': b_setattr, 'type': b_type, 'id': b_id,
     'iter': b_iter, 'print': b_print, 'next': b_next,
     'contextlib.suppress': b_suppress,
     'struct.unpack': b_struct_unpack, 'struct.calcsize': b_struct_calcsize,
@@ -1885,15 +2314,39 @@ BUILTINS = {
     'bin': b_pure('bin'), 'hex': b_pure('hex'), 'ord': b_pure('ord'),
     'chr': b_pure('chr'), 'abs': b_pure('abs'), 'repr': b_pure('repr'),
     'math.ceil': b_math_ceil, 'pow': b_pow, 'map': b_map,
-    'functools.reduce': b_reduce, 'divmod': b_divmod,
+    'functools.reduce': b_reduce, 'functools.partial': b_partial,
+    'collections.namedtuple': b_namedtuple,
+    'functools.wraps': b_wraps, 'divmod': b_divmod,
     'sys.exc_info': b_exc_info, 'format': b_format,
-    'itertools.groupby': b_groupby,
+    're.escape': b_pure_ext('re.escape'),
+    'math.floor': b_pure_ext('math.floor'),
+    'math.log': b_pure_ext('math.log'), 'math.log2': b_pure_ext('math.log2'),
+    'math.log10': b_pure_ext('math.log10'),
+    'math.sqrt': b_pure_ext('math.sqrt'),
+    'math.trunc': b_pure_ext('math.trunc'),
+    'operator.index': b_pure_ext('operator.index'),
+    'unicodedata.normalize': b_pure_ext('unicodedata.normalize'),
+    'unicodedata.category': b_pure_ext('unicodedata.category'),
+    'string.capwords': b_pure_ext('string.capwords'),
+    'textwrap.dedent': b_pure_ext('textwrap.dedent'),
+    'posixpath.join': b_pure_ext('posixpath.join'),
+    'itertools.groupby': b_groupby, 'itertools.repeat': b_it_repeat,
+    'itertools.count': b_it_count, 'itertools.cycle': b_it_cycle,
+    'itertools.chain': b_it_chain,
+    'itertools.chain.from_iterable': b_it_chain_from,
+    'itertools.islice': b_it_islice, 'itertools.starmap': b_it_starmap,
+    'filter': _filtering(True), 'itertools.filterfalse': _filtering(False),
+    'itertools.takewhile': _while(True),
+    'itertools.dropwhile': _while(False),
+    'itertools.accumulate': b_it_accumulate,
+    'itertools.zip_longest': b_it_zip_longest,
     'urllib.parse.parse_qsl': b_parse_qsl,
+    'urllib.parse.parse_qs': b_parse_qs,
     'round': b_pure('round'),
     'operator.lt': b_operator('lt'), 'operator.le': b_operator('le'),
     'operator.eq': b_operator('eq'), 'operator.ne': b_operator('ne'),
     'operator.gt': b_operator('gt'), 'operator.ge': b_operator('ge'),
-    'contextlib.closing': b_closing, 'object': b_object, 'sum': b_sum,
+    'contextlib.closing': b_closing, 'contextlib.ExitStack': b_exitstack, 'object': b_object, 'sum': b_sum,
     'operator.contains': b_operator_contains,
     'operator.not_': b_operator_not, 'operator.is_': b_operator_is(False),
     'operator.is_not': b_operator_is(True),
